@@ -447,16 +447,16 @@ Proof.
 Qed.
 
 Section MasksGen.
-  Variables (ny nx w s vp nd : Z).
+  Variables (ny nx w s : Z).
   Hypotheses (Hny : 0 <= ny) (Hnx : 1 <= nx) (Hw : 0 < w) (Hodd : Z.odd w = true).
 
-  Lemma is_mask : forall (m : img),
+  Lemma is_mask : forall vp nd (m : img),
     is_arr (np_set_where (np_binary_dilation (np_eq_scalar (np_of ny nx m) nd) w w 1) true
              (np_set_where (np_and (np_ne_scalar (np_of ny nx m) vp) (np_ne_scalar (np_of ny nx m) nd)) true
                 (np_zeros_mask ny nx)))
            ny nx (mask_nan ny nx w vp nd (Some m)).
   Proof.
-    intros m. split; [|split; [reflexivity|split; [reflexivity|]]].
+    intros vp nd m. split; [|split; [reflexivity|split; [reflexivity|]]].
     - unfold np_set_where, np_binary_dilation, np_and, np_zip, np_ne_scalar, np_eq_scalar, np_map, np_zeros_mask,
         np_of, same_shape. cbn [a_ok a_nr a_nc a_at]. rewrite Hodd. lia.
     - intros r c _ _. unfold np_set_where at 1. cbn [a_at]. rewrite dilation_eq by assumption.
@@ -465,8 +465,8 @@ Section MasksGen.
       destruct (dilate ny nx w nd m r c); destruct (negb (m r c =? vp) && negb (m r c =? nd)); reflexivity.
   Qed.
 
-  Lemma is_no_mask : is_arr (np_zeros_mask ny nx) ny nx (mask_nan ny nx w vp nd None).
-  Proof. unfold is_arr, np_zeros_mask. cbn [a_ok a_nr a_nc a_at]. split; [lia|]. repeat split. Qed.
+  Lemma is_no_mask : forall vp nd, is_arr (np_zeros_mask ny nx) ny nx (mask_nan ny nx w vp nd None).
+  Proof. intros vp nd. unfold is_arr, np_zeros_mask. cbn [a_ok a_nr a_nc a_at]. split; [lia|]. repeat split. Qed.
 
   Lemma is_shift : forall a f, is_arr a ny nx f ->
     is_arr (np_sum_strided3_nan a (a_nr a) (a_nc a - 1) 2 StRow StCol StCol) ny (nx - 1) (mask_shift f).
@@ -479,22 +479,22 @@ Section MasksGen.
 
   (* the masks that cv_masked receives are the model's: left and right dilated masks with the window of the measure,
      and, exactly when subpix != 1, the two-column mask of the right one *)
-  Lemma gen_cv_masked_masks_eq : forall (IL IR : img) (mL mR : option img),
-    let res := GF.cv_masked_masks (ds_of ny nx vp nd IL mL) (ds_of ny nx vp nd IR mR) w s in
+  Lemma gen_cv_masked_masks_eq : forall (vp nd vpr ndr : Z) (IL IR : img) (mL mR : option img),
+    let res := GF.cv_masked_masks (ds_of ny nx vp nd IL mL) (ds_of ny nx vpr ndr IR mR) w s in
     is_arr (fst res) ny nx (mask_nan ny nx w vp nd mL)
-    /\ is_arr (fst (snd res)) ny nx (mask_nan ny nx w vp nd mR)
+    /\ is_arr (fst (snd res)) ny nx (mask_nan ny nx w vpr ndr mR)
     /\ match snd (snd res) with
-       | Some sh => s <> 1 /\ is_arr sh ny (nx - 1) (mask_shift (mask_nan ny nx w vp nd mR))
+       | Some sh => s <> 1 /\ is_arr sh ny (nx - 1) (mask_shift (mask_nan ny nx w vpr ndr mR))
        | None => s = 1
        end.
   Proof.
-    intros IL IR mL mR. cbv zeta. unfold GF.cv_masked_masks, GF.masks_dilatation. cbv zeta.
+    intros vp nd vpr ndr IL IR mL mR. cbv zeta. unfold GF.cv_masked_masks, GF.masks_dilatation. cbv zeta.
     unfold ds_of. cbn [d_im d_msk d_valid_pixels d_no_data_mask fst snd].
-    split; [destruct mL as [m|]; [exact (is_mask m)|exact is_no_mask]|].
-    assert (HR : is_arr (fst (snd (GF.cv_masked_masks (ds_of ny nx vp nd IL mL) (ds_of ny nx vp nd IR mR) w s))) ny nx (mask_nan ny nx w vp nd mR)).
+    split; [destruct mL as [m|]; [exact (is_mask vp nd m)|exact (is_no_mask vp nd)]|].
+    assert (HR : is_arr (fst (snd (GF.cv_masked_masks (ds_of ny nx vp nd IL mL) (ds_of ny nx vpr ndr IR mR) w s))) ny nx (mask_nan ny nx w vpr ndr mR)).
     { unfold GF.cv_masked_masks, GF.masks_dilatation. cbv zeta. unfold ds_of.
       cbn [d_im d_msk d_valid_pixels d_no_data_mask fst snd].
-      destruct mR as [m|]; [exact (is_mask m)|exact is_no_mask]. }
+      destruct mR as [m|]; [exact (is_mask vpr ndr m)|exact (is_no_mask vpr ndr)]. }
     unfold GF.cv_masked_masks, GF.masks_dilatation in HR. cbv zeta in HR. unfold ds_of in HR.
     cbn [d_im d_msk d_valid_pixels d_no_data_mask fst snd] in HR.
     split; [exact HR|].
